@@ -1089,6 +1089,8 @@ impl Vm {
                 .expect("Expected ExcHandler.");
             (handler.finally_ip, handler.init_stack_size)
         };
+        let handler_count = self.active_fiber().exc_handlers.len();
+        self.active_fiber_mut().return_handler_count = handler_count;
         self.active_fiber_mut().stack.truncate(init_stack_size);
         self.ip = new_ip;
     }
@@ -1536,6 +1538,15 @@ impl Vm {
         let exc_object = self.peek(0);
 
         let exc_handler = self.active_fiber_mut().pop_exc_handler();
+        // An exception that leaves a finally block supersedes the `return` that entered it: the
+        // pending return must not be resumed by a later, unrelated finally block.
+        let leaves_finally = {
+            let fiber = self.active_fiber();
+            exc_handler.is_none() || fiber.exc_handlers.len() < fiber.return_handler_count
+        };
+        if leaves_finally {
+            self.active_fiber_mut().take_return_data();
+        }
         let handler = if let Some(h) = exc_handler {
             h
         } else {
